@@ -104,11 +104,13 @@ def case(cid, rng, kind, padded, est):
                 # history: the same estimator object (and its user-supplied linear estimator) was fitted on other data before
                 m.fit(rng.integers(-4, 5, size=X.shape).astype(float), rng.integers(-4, 5, size=Y.shape).astype(float))
                 c["kind"] += "/refit"
-            m.fit(X.astype(float), Y.astype(float))
-            c["Om"] = fq(np.asarray(m.coef_).T)
+            # a single target may be given as a plain vector (documented: y of shape (n_samples,) or (n_samples, n_targets))
+            y1 = Y.shape[1] == 1 and not padded and rng.random() < 0.5      # (projector mode reshapes a vector itself; the padded mode documents 2-D targets only)
+            m.fit(X.astype(float), Y[:, 0].astype(float) if y1 else Y.astype(float))
+            c["Om"] = fq(np.atleast_2d(np.asarray(m.coef_)).T)
             newX = rng.integers(-4, 5, size=(3, f))
             c["newX"] = newX.astype(int).tolist()
-            c["preds"] = fq(m.predict(newX.astype(float)))
+            c["preds"] = fq(np.reshape(m.predict(newX.astype(float)), (3, -1)))
             from scipy.linalg import orthogonal_procrustes
             if padded:
                 # competitor witness: an orthogonal matrix (verified by the specification) whose residual the fit may not exceed
